@@ -336,8 +336,10 @@ func ruleGuardedBy(p *Program, r *Report) {
 	}
 }
 
-func ruleCondProtocol(p *Program, r *Report) {
-	r.Begin("R11c", "condition-variable protocol: in a function that waits on a sync.Cond in a loop over a guarded map, every write that changes the waited-for state (map update or delete of the same map) is followed on every path to the unlock by a Broadcast/Signal on that condition variable — a waiter is never left sleeping", 2)
+func ruleCondProtocol(p *Program, r *Report) { ruleCondProtocolNamed(p, r, "R11c") }
+
+func ruleCondProtocolNamed(p *Program, r *Report, ruleName string) {
+	r.Begin(ruleName, "condition-variable protocol: in a function that waits on a sync.Cond in a loop over a guarded map, every write that changes the waited-for state (map update or delete of the same map) is followed on every path to the unlock by a Broadcast/Signal on that condition variable — a waiter is never left sleeping", 2)
 	defer r.End()
 	n := 0
 	for _, fn := range p.RepoFns {
